@@ -2,3 +2,4 @@ import Spec.Checksum
 import Spec.Wsgi
 import Spec.State
 import Spec.NumDB
+import Spec.Standards
